@@ -47,8 +47,20 @@ func (vc *VC) loopFreshOnly(li *loopInfo) map[string]bool {
 				if m.Top {
 					return nil
 				}
+				// what a statically known callee changes only in objects it allocates itself is, seen
+				// from the loop, a write above the frontier of loop entry
+				var calleeFresh map[string]bool
+				if fn := x.Common().StaticCallee(); fn != nil && !x.Common().IsInvoke() && vc.eng.inModule(fn) && fn.Blocks != nil {
+					if _, isClosure := x.Common().Value.(*ssa.MakeClosure); !isClosure {
+						calleeFresh = vc.eng.freshOnlyOf(fn, vc.eng.modOf(fn))
+					}
+				}
 				for l := range m.Locs {
-					other[l] = true
+					if calleeFresh[l] {
+						fresh[l] = true
+					} else {
+						other[l] = true
+					}
 				}
 			}
 		}
